@@ -136,5 +136,73 @@ def compress3 (method : String) (axis : Nat) (a : List Mat) : Option Mat := do
   let rs ← slices.mapM (compress0 method)
   if axis = 0 then pure rs else pure (transpose rs)
 
+/-! ### `shadow` as a specification: weights by priority *key*
+
+  The key of a column is (row of its last non-zero entry, magnitude of that entry); later rows
+  rank above earlier rows, then magnitude.  The weights are the bit allocation over the sorted
+  keys (one entry per column).  `shadowSpec` is what the statement of C13 describes; that
+  `ndint_compress(method="shadow")` computes it is tied by the correspondence (and `shadow2d`
+  above mirrors the code's own plumbing). -/
+
+structure Key where
+  row : Nat
+  mag : Int
+deriving DecidableEq, Repr, Inhabited
+
+def Key.lt (a b : Key) : Prop := a.row < b.row ∨ (a.row = b.row ∧ a.mag < b.mag)
+def Key.le (a b : Key) : Prop := a.row < b.row ∨ (a.row = b.row ∧ a.mag ≤ b.mag)
+instance (a b : Key) : Decidable (Key.lt a b) := by unfold Key.lt; infer_instance
+instance (a b : Key) : Decidable (Key.le a b) := by unfold Key.le; infer_instance
+
+def insertK (k : Key) : List Key → List Key
+  | [] => [k]
+  | x :: xs => if Key.le k x then k :: x :: xs else x :: insertK k xs
+
+def sortK : List Key → List Key
+  | [] => []
+  | k :: ks => insertK k (sortK ks)
+
+/-- the bit allocation over keys: runs of equal consecutive keys share a weight; a new run gets
+    1 + (sum of all weights so far) — `obaGo`/`oba` with keys instead of encoded integers -/
+def obaGoK (prev : Key) (w total : Int) : List Key → List Int
+  | [] => []
+  | x :: xs => if x = prev then w :: obaGoK prev w (total + w) xs
+               else (total + 1) :: obaGoK x (total + 1) (total + (total + 1)) xs
+
+def obaK : List Key → List Int
+  | [] => []
+  | x :: xs => 1 :: obaGoK x 1 1 xs
+
+/-- sorted keys paired with their weights -/
+def table (ks : List Key) : List (Key × Int) := List.zip (sortK ks) (obaK (sortK ks))
+
+def keyOf (c : List Int) : Option Key := (lastNZ c).map (fun p => ⟨p.1, absI p.2⟩)
+def sgnOf (c : List Int) : Int := match lastNZ c with
+  | some (_, v) => if v < 0 then -1 else 1
+  | none => 0
+
+def weightOf (t : List (Key × Int)) (k : Key) : Int := (t.lookup k).getD 0
+
+/-- `shadow` along axis 0, by keys -/
+def shadowSpec (m : Mat) : List Int :=
+  let cols := (List.range (ncols m)).map (col m)
+  let t := table (cols.filterMap keyOf)
+  cols.map (fun c => match keyOf c with
+    | none => 0
+    | some k => sgnOf c * weightOf t k)
+
+/-- `compress0` with `shadow` computed from the key specification instead of the code's plumbing -/
+def compress0Spec (method : String) (m : Mat) : Option (List Int) :=
+  if method = "shadow" then some (shadowSpec m) else compress0 method m
+
+def compress2Spec (method : String) (axis : Nat) (m : Mat) : Option (List Int) :=
+  if axis = 0 then compress0Spec method m else compress0Spec method (transpose m)
+
+def compress3Spec (method : String) (axis : Nat) (a : List Mat) : Option Mat := do
+  let slices : List Mat := if axis = 0 then a else
+    (List.range ((a.headD []).length)).map (fun i => a.map (fun s => s.getD i []))
+  let rs ← slices.mapM (compress0Spec method)
+  if axis = 0 then pure rs else pure (transpose rs)
+
 end Prio
 end Puan
